@@ -46,7 +46,19 @@ var bigInts = []string{
 	"2147483648", "9007199254740993", "-9007199254740993",
 }
 
+var lookalikes = lookalikeAll()
+
 func randString(r *hlib.Rand) string {
+	if r.Intn(6) == 0 {
+		// an ASCII identifier with one look-alike code point somewhere
+		t := lookalikeTemplates[r.Intn(len(lookalikeTemplates))]
+		c := string(lookalikes[r.Intn(len(lookalikes))])
+		i := r.Intn(len(t) + 1)
+		if i < len(t) && r.Bool() {
+			return t[:i] + c + t[i+1:]
+		}
+		return t[:i] + c + t[i:]
+	}
 	switch r.Intn(10) {
 	case 0, 1, 2, 3:
 		return strPool[r.Intn(len(strPool))]
@@ -210,7 +222,7 @@ func runExprBatch(o *hlib.Out, paths [][]any) {
 	}
 }
 
-func exprFixed() [][]any {
+func exprFixed(thorough bool) [][]any {
 	big1, _ := new(big.Int).SetString("100000000000000000000000", 10)
 	ps := [][]any{
 		{}, {""}, {"a", "", "b"}, {"", ""}, {0}, {-1}, {0, "a"}, {-1, -2}, {"a", 0}, {"a", -1, "b"}, {big1}, {"a", big1},
@@ -225,15 +237,32 @@ func exprFixed() [][]any {
 	for c := rune(0); c < 0x80; c++ {
 		ps = append(ps, []any{string(c)}, []any{"a" + string(c)}, []any{string(c) + "a"})
 	}
+	// look-alikes of ASCII word characters: the case-folding ones at every position of every template,
+	// the whole set alone and inside "a?b" (quick) / at every position of every template (thorough)
+	for _, k := range lookalikeKeys(foldCore(), lookalikeTemplates) {
+		ps = append(ps, []any{k})
+	}
+	ps = append(ps, []any{"a\u017fb", 1}, []any{0, "\u212a"}, []any{"\u212a", "\u017f", "\u0131", "\u0130"})
+	if thorough {
+		for _, k := range lookalikeKeys(lookalikes, []string{"ab", "_x", "a1"}) {
+			ps = append(ps, []any{k})
+		}
+	} else {
+		for _, c := range lookalikes {
+			ps = append(ps, []any{string(c)}, []any{"a" + string(c) + "b"})
+		}
+	}
 	return ps
 }
 
 func runExpr(o *hlib.Out, r *hlib.Rand, cfg hlib.Config) {
-	n := 1200
+	n := 800
 	if cfg.Thorough() {
 		n = 8000
 	}
-	ps := exprFixed()
+	ps := exprFixed(cfg.Thorough())
+	o.Stat("lookalike_code_points", len(lookalikes))
+	o.Stat("casefold_to_ascii_code_points", len(foldCore()))
 	for i := 0; i < n; i++ {
 		ps = append(ps, randPath(r))
 	}
